@@ -413,7 +413,7 @@ def nt_verify(case, labels):
 
 
 VERIFY_CLASSES = ["valid", "malleated", "valid-z+n", "r-out", "s-out", "both-out", "other-key", "other-z", "random",
-                  "near", "infinity", "infinity", "r+n", "s+n", "close-x", "close-x"]
+                  "near", "infinity", "infinity", "r+n", "s+n", "close-x", "close-x", "structured-u", "structured-u", "structured-u"]
 
 
 def _out_values(v0, n, i):
@@ -478,7 +478,39 @@ def _mk_verify(cv, d, z, k, cls, a1, a2):
             Q = c.mul_fast(s * pow(r, -1, n) % n, T)
         else:
             cls = "valid"
+    elif cls == "structured-u":
+        # a valid triple built backwards from the two multipliers verification uses: u1 = z/s and u2 = r/s are chosen with
+        # regular bit structure (0x5555.., 0xaaaa.., runs, sparse), R = u1*G + u2*Q, r = x(R) mod n, s = r/u2, z = u1*s
+        u1 = _structured(a1, n)
+        u2 = _structured(a2, n)
+        R = c.add(c.mul_fast(u1, c.G), c.mul_fast(u2, Q))
+        if R is not None and R[0] % n:
+            r = R[0] % n
+            s = r * pow(u2, -1, n) % n
+            zz = u1 * s % n or n
+        else:
+            cls = "valid"
     return {"curve": cv, "Q": list(Q), "z": zz, "r": r, "s": s, "cls": cls}
+
+
+def _structured(sel, n):
+    """a scalar in [1, n-1] with regular bit structure, chosen by sel (block width, block value, total width)"""
+    m = 2 + (sel >> 20) % (n.bit_length() - 1)
+    if sel % 3 == 0:
+        # j * (2^m - 1) / k: the repeating binary expansions of j/k (0x5555.., 0xaaaa.., 0x3333.., 0x2492.., ...), whose small
+        # multiples 3e, 5e, ... fall just below a power of two - where NAF / window recoding and float logarithms slip
+        k = [3, 3, 3, 5, 7, 9, 15, 17][(sel >> 4) % 8]
+        j = 1 + (sel >> 8) % (k - 1)
+        v = ((1 << m) - 1) // k * j + [0, 0, 1, -1][(sel >> 32) % 4]
+        return v % (n - 1) + 1 if not 1 <= v < n else v
+    p = 1 + sel % 16
+    q = (sel >> 4) % ((1 << p) - 1) + 1
+    v = 0
+    for i in range(0, m, p):
+        v |= q << i
+    v &= (1 << m) - 1
+    v += [0, 0, 1, -1][(sel >> 32) % 4]
+    return v % (n - 1) + 1 if not 1 <= v < n else v
 
 
 # abscissa distances between the two addends of verification (both signs are generated)
